@@ -112,3 +112,46 @@ Definition lenient_expected : list string :=
 
 Fixpoint assoc_s {A} (k : string) (l : list (string * A)) : option A :=
   match l with [] => None | (k', v) :: r => if String.eqb k k' then Some v else assoc_s k r end.
+
+(** spellings used by the published grammar (grammer.txt) for the operator tokens *)
+Definition op_spelling (s : string) : option tkind :=
+  if String.eqb s "||" then Some TLOGICAL_OR else if String.eqb s "or" then Some TLOGICAL_OR
+  else if String.eqb s "&&" then Some TLOGICAL_AND else if String.eqb s "and" then Some TLOGICAL_AND
+  else if String.eqb s "|" then Some TOR else if String.eqb s "^" then Some TXOR else if String.eqb s "&" then Some TAND
+  else if String.eqb s "!=" then Some TBANG_EQUAL else if String.eqb s "==" then Some TEQUAL_EQUAL
+  else if String.eqb s ">" then Some TGREATER else if String.eqb s ">=" then Some TGREATER_EQUAL
+  else if String.eqb s "<" then Some TLESS else if String.eqb s "<=" then Some TLESS_EQUAL
+  else if String.eqb s ">>" then Some TRIGHT_SHIFT else if String.eqb s "<<" then Some TLEFT_SHIFT
+  else if String.eqb s "-" then Some TMINUS else if String.eqb s "+" then Some TPLUS
+  else if String.eqb s "/" then Some TSLASH else if String.eqb s "*" then Some TSTAR else if String.eqb s "%" then Some TMODULO
+  else if String.eqb s "**" then Some TPOWER else if String.eqb s "!" then Some TBANG else if String.eqb s "~" then Some TNOT
+  else None.
+
+Definition same_kinds (a b : list tkind) : bool :=
+  forallb (fun k => kind_in k b) a && forallb (fun k => kind_in k a) b.
+
+Fixpoint all_some {A} (l : list (option A)) : option (list A) :=
+  match l with
+  | [] => Some []
+  | Some x :: r => match all_some r with Some xs => Some (x :: xs) | None => None end
+  | None :: _ => None
+  end.
+
+(** the documented ladder agrees with a table of levels: same number of levels, same operator set per
+    level (both spellings of the logical operators allowed), each level's operands are the next level,
+    the last level's operands are "unary" *)
+Fixpoint doc_ladder_matches (doc : list (string * list string * string)) (lad : list (list tkind * bool)) : bool :=
+  match doc, lad with
+  | [], [] => true
+  | (name, ops, operand) :: dr, (ks, _) :: lr =>
+      match all_some (map op_spelling ops) with
+      | Some dks => same_kinds dks ks
+      | None => false
+      end
+      && match dr with
+         | (next, _, _) :: _ => String.eqb operand next
+         | [] => String.eqb operand "unary"
+         end
+      && doc_ladder_matches dr lr
+  | _, _ => false
+  end.
